@@ -336,7 +336,11 @@ func (st *c12State) execOne(run *c12Run) (c12Outcome, error) {
 			if _, err := st.x.RunGen(dir, Op{Kind: "Gen", Binary: "plain", Cwd: "dot"}, "c12pre"); err != nil {
 				return c12Outcome{}, err
 			}
-			if err := SetSources(dir, &Variant{Name: "main", Files: run.Files}); err != nil {
+			known := map[string]bool{}
+			for n := range run.Pre {
+				known[n] = true
+			}
+			if err := SetSources(dir, &Variant{Name: "main", Files: run.Files}, known); err != nil {
 				return c12Outcome{}, Infra("%v", err)
 			}
 		} else if err := Materialise(dir, run.Files, true); err != nil {
